@@ -906,6 +906,22 @@ fn rov_attr(o: u32) -> Arc<Vec<packet::Attribute>> {
             bin.extend_from_slice(&64501u32.to_be_bytes());
             bin.extend_from_slice(&64502u32.to_be_bytes());
         }
+        98 => {
+            // AS_SEQUENCE [65000, AS 1] then an AS_SET as the final segment: origin NONE all the same
+            bin.extend_from_slice(&[2, 2]);
+            bin.extend_from_slice(&65000u32.to_be_bytes());
+            bin.extend_from_slice(&rov_asn(1).to_be_bytes());
+            bin.extend_from_slice(&[1, 2]);
+            bin.extend_from_slice(&64502u32.to_be_bytes());
+            bin.extend_from_slice(&64503u32.to_be_bytes());
+        }
+        5 => {
+            // an AS_SET in front, AS_SEQUENCE [AS 1] as the final segment: the origin is AS 1
+            bin.extend_from_slice(&[1, 1]);
+            bin.extend_from_slice(&64502u32.to_be_bytes());
+            bin.extend_from_slice(&[2, 1]);
+            bin.extend_from_slice(&rov_asn(1).to_be_bytes());
+        }
         3 => {}
         a => {
             bin.extend_from_slice(&[2, 2]);
